@@ -43,13 +43,13 @@ type Node = routemodel.Node
 
 type routeCase struct {
 	Tree      []*Node            `json:"tree"`
-	Late      []*Node            `json:"late,omitempty"`     // registered after the first Handler() was obtained
-	UseNew    bool               `json:"use_new,omitempty"`  // send to a Handler() obtained after the late registrations
-	Req       routemodel.Request `json:"request"`            // the logical (de-tunnelled) request, path after the mount prefix
+	Late      []*Node            `json:"late,omitempty"`      // registered after the first Handler() was obtained
+	UseNew    bool               `json:"use_new,omitempty"`   // send to a Handler() obtained after the late registrations
+	Req       routemodel.Request `json:"request"`             // the logical (de-tunnelled) request, path after the mount prefix
 	Tunnelled bool               `json:"tunnelled,omitempty"` // sent as POST + X-HTTP-Method-Override
-	Filters   []string           `json:"filters,omitempty"`  // pass | ctx | fail
-	Mount     string             `json:"mount"`              // bare | mux | prefix | prefix-mux | http
-	Outside   bool               `json:"outside,omitempty"`  // prefix mounts: request sent without the prefix
+	Filters   []string           `json:"filters,omitempty"`   // pass | ctx | fail
+	Mount     string             `json:"mount"`               // bare | mux | prefix | prefix-mux | http
+	Outside   bool               `json:"outside,omitempty"`   // prefix mounts: request sent without the prefix
 
 	treeKey string
 }
@@ -888,9 +888,9 @@ type latePair struct {
 
 func latePairs() []latePair {
 	return []latePair{
-		{[]*Node{coll("res", []string{"get"}, nil, nil)}, []*Node{fullColl("other")}},                                                                   // new root resource
-		{[]*Node{coll("res", []string{"get"}, nil, nil)}, []*Node{coll("res", []string{"create", "get_all", "delete", "batch_get"}, []string{"f1"}, []string{"a1"})}}, // new methods on an existing resource
-		{[]*Node{coll("res", []string{"get"}, nil, nil)}, []*Node{coll("res", nil, nil, nil, fullSimple("sub"))}},                                        // new sub-resource
+		{[]*Node{coll("res", []string{"get"}, nil, nil)}, []*Node{fullColl("other")}},                                                                                                                // new root resource
+		{[]*Node{coll("res", []string{"get"}, nil, nil)}, []*Node{coll("res", []string{"create", "get_all", "delete", "batch_get"}, []string{"f1"}, []string{"a1"})}},                                // new methods on an existing resource
+		{[]*Node{coll("res", []string{"get"}, nil, nil)}, []*Node{coll("res", nil, nil, nil, fullSimple("sub"))}},                                                                                    // new sub-resource
 		{[]*Node{fullColl("res", coll("sub", []string{"get"}, nil, nil))}, []*Node{coll("res", nil, nil, nil, coll("sub", []string{"get_all", "create"}, []string{"f1"}, nil, fullSimple("leaf")))}}, // deeper
 		{[]*Node{fullSimple("res")}, []*Node{simple("res", nil, []string{"a2"}, fullColl("sub")), simple("resx", []string{"get"}, nil)}},
 	}
